@@ -57,9 +57,9 @@ func makeScenario(p *Profile, seed uint64, run int) *Scenario {
 }
 
 func init() {
-	register(&Profile{Prop: "C03", Name: "concurrent", Quick: 18000, Thorough: 400000, Gen: genC03, Check: checkC03,
+	register(&Profile{Prop: "C03", Name: "concurrent", Quick: 12000, Thorough: 400000, Gen: genC03, Check: checkC03,
 		Rule: "a run is non-trivial when the executed schedule switched between different in-flight requests at least twice"})
-	register(&Profile{Prop: "C03", Name: "concurrent-race", Race: true, Quick: 4000, Thorough: 80000, Gen: genC03Race, Check: checkC03,
+	register(&Profile{Prop: "C03", Name: "concurrent-race", Race: true, Quick: 3000, Thorough: 80000, Gen: genC03Race, Check: checkC03,
 		Rule: "as concurrent; executed in a -race build in which baton hand-offs are invisible to the detector"})
 }
 
